@@ -54,7 +54,7 @@ def run_one(args):
         r = subprocess.run(["patch", "-p1", "-s", "--no-backup-if-mismatch", "-i", patch], cwd=d, capture_output=True, text=True)
         if r.returncode != 0:
             return name, "skipped (patch does not apply to the current tree)", {}
-        env = dict(os.environ, NDI_REPO=d, NDI_EVID_DIR=os.path.join(d, "evidence"), NDI_TARGET_SUFFIX="-st%d" % worker)
+        env = dict(os.environ, NDI_REPO=d, NDI_EVID_DIR=os.path.join(d, "evidence"), NDI_TARGET_SUFFIX="-st%s" % worker)
         res = {}
         for p in props:
             rr = subprocess.run([os.path.join(VERIF, "check"), p, "--tier", "quick"], env=env, capture_output=True, text=True)
@@ -65,14 +65,14 @@ def run_one(args):
         shutil.rmtree(d, ignore_errors=True)
 
 
-def run(selected=None, props=None, workers=6):
+def run(selected=None, props=None, workers=6, slot_base=''):
     exp = expectations()
     jobs = []
     for i, (name, patch) in enumerate(mutants()):
         if selected and name not in selected:
             continue
         ps = props or exp.get(name, {}).get("fires") or ALL
-        jobs.append((name, patch, ps, i % workers))
+        jobs.append((name, patch, ps, '%s%d' % (slot_base, i % workers)))
     out = {}
     # one job per worker slot at a time (each slot owns a cargo target dir)
     by_worker = {}
